@@ -23,7 +23,7 @@ func New(seed int64) *G {
 	return &G{R: rand.New(rand.NewSource(seed)), Methods: true, Vars: true, KeyValue: true, Regex: true}
 }
 
-func (g *G) pick(n int) int { return g.R.Intn(n) }
+func (g *G) pick(n int) int        { return g.R.Intn(n) }
 func (g *G) chance(p float64) bool { return g.R.Float64() < p }
 
 var keys = []string{"a", "b", "c"}
